@@ -60,13 +60,19 @@ def offeredB (vals : List Bytes) (e : Enc) : Bool := vals.any (offersB · e)
 
 def nameOf? (v : Bytes) : Option Enc := Enc.all.find? (fun e => v == name e)
 
+/-- The first element of a list value (in the peer's order of preference) that names an
+encoding of `send`. -/
+def firstMutual (send : List Enc) (v : Bytes) : Option Enc :=
+  (tokens v).findSome? (fun t => (nameOf? t).filter (fun e => send.contains e))
+
 /-- The set of encodings in force after a sequence of configuration calls (naive reading:
 `enable` adds, `pop` removes the most recently added). -/
-def enabledAfter (cs : List Call) : List Enc :=
-  cs.foldl (fun l c =>
-    match c with
-    | .en e => if l.contains e then l else l ++ [e]
-    | .pop => l.dropLast) []
+def enabledStep (l : List Enc) (c : Call) : List Enc :=
+  match c with
+  | .en e => if l.contains e then l else l ++ [e]
+  | .pop => l.dropLast
+
+def enabledAfter (cs : List Call) : List Enc := cs.foldl enabledStep []
 
 /-- What a receiver must do with the peer's `grpc-encoding` (the value `HeaderMap::get`
 yields, i.e. the first line; a conformant peer sends exactly one). -/
@@ -156,19 +162,22 @@ def srvFlag (accept : List Enc) (req : SrvReq) (o : SrvObs) : Bool :=
     (!req.shape.singleRequest || !o.called)
   | _, _ => true
 
+/-- the handler of a request well-formed for `neg` receives every message decoded by `neg` -/
+def srvDelivered (neg : Option Enc) (req : SrvReq) (o : SrvObs) : Bool :=
+  if req.frames.all (wellFormedFor neg) then
+    if req.shape.singleRequest then
+      match req.frames with
+      | [] => !o.called && o.stCode == 13
+      | f :: _ => o.called && o.saw == [expectItem f]
+    else o.called && o.saw == req.frames.map expectItem
+  else true
+
 /-- (5) a request that is acceptable and well-formed for the negotiated encoding reaches the
 handler with every message decoded by exactly that encoding. -/
 def srvDeliver (accept : List Enc) (req : SrvReq) (o : SrvObs) : Bool :=
   match recv accept req.encVals with
   | .refuse => true
-  | r =>
-    if req.frames.all (wellFormedFor r.enc) then
-      if req.shape.singleRequest then
-        match req.frames with
-        | [] => !o.called && o.stCode == 13
-        | f :: _ => o.called && o.saw == [expectItem f]
-      else o.called && o.saw == req.frames.map expectItem
-    else true
+  | r => srvDelivered r.enc req o
 
 /-! ### client clauses -/
 
@@ -198,19 +207,23 @@ def cliFlag (accept : List Enc) (resp : CliResp) (o : CliObs) : Bool :=
     o.result.getLast? == some (.err 13 .flagNoEnc) && decide (okCount o.result ≤ k)
   | _, _, _ => true
 
+/-- the caller of a successful response well-formed for `neg` receives every message decoded
+by `neg` -/
+def cliDelivered (neg : Option Enc) (shape : Shape) (resp : CliResp) (o : CliObs) : Bool :=
+  if resp.hdrStatus.isNone && (resp.trlStatus.isNone || resp.trlStatus == some 0) &&
+      resp.frames.all (wellFormedFor neg) then
+    if shape.singleResponse then
+      match resp.frames with
+      | [] => o.result == [.err 13 .missing]
+      | f :: _ => o.result == [expectItem f]
+    else o.result == resp.frames.map expectItem
+  else true
+
 /-- (10) an acceptable, well-formed, successful response is delivered decoded by exactly the
 negotiated encoding. -/
 def cliDeliver (accept : List Enc) (shape : Shape) (resp : CliResp) (o : CliObs) : Bool :=
   match recv accept resp.encVals with
   | .refuse => true
-  | r =>
-    if resp.hdrStatus.isNone && (resp.trlStatus.isNone || resp.trlStatus == some 0) &&
-        resp.frames.all (wellFormedFor r.enc) then
-      if shape.singleResponse then
-        match resp.frames with
-        | [] => o.result == [.err 13 .missing]
-        | f :: _ => o.result == [expectItem f]
-      else o.result == resp.frames.map expectItem
-    else true
+  | r => cliDelivered r.enc shape resp o
 
 end Spec.Compression
